@@ -262,6 +262,15 @@ def ty_kind(ty):
     raise ValueError(ty)
 
 
+def union_ok(alts):
+    """No opaque (pint / isodate parsed) type together with a string-like type in one Union of
+    a *C12* schema: the encodings overlap, so the stored alternative is not recoverable."""
+    kinds = [ty_kind(t) for t in alts]
+    has_opq = any("opaque" in k for k in kinds)
+    n_str = sum(1 for k in kinds if "str" in k)
+    return not (has_opq and n_str > 1)
+
+
 def rand_singular(rng, depth, models=(), atoms=None, unambiguous=True):
     """atomic | model | Union[singular ...] (the "singular" types of partial.py)."""
     atoms = atoms or ATOMS
@@ -334,7 +343,27 @@ def rand_type(rng, depth, models=()):
         return ["union", alts] if len(alts) >= 2 else alts[0]
     if r < 0.85:
         return ["list", rand_type(rng, depth - 1, models)]
-    return ["set", rand_type(rng, depth - 1, models)]
+    return ["set", rand_scalar(rng, depth - 1)]
+
+
+def is_scalar(ty):
+    k = ty[0]
+    if k in ("list", "set", "model"):
+        return False
+    if k in ("opt", "ann"):
+        return is_scalar(ty[1])
+    if k == "union":
+        return all(is_scalar(t) for t in ty[1])
+    return True
+
+
+def rand_scalar(rng, depth):
+    """item type of a Set: hashable values only (no list / set / schema)"""
+    for _ in range(20):
+        t = rand_type(rng, depth, ())
+        if is_scalar(t):
+            return t
+    return [rng.choice(HASHABLE_ATOMS)]
 
 
 def all_types(depth, models=(), lits=None, atoms=None):
@@ -350,7 +379,8 @@ def all_types(depth, models=(), lits=None, atoms=None):
         if t[0] != "opt":
             out.append(["opt", t])
         out.append(["list", t])
-        out.append(["set", t])
+        if is_scalar(t):
+            out.append(["set", t])
     flat = [t for t in sub if t[0] not in ("opt", "union")]
     for i, a in enumerate(flat):
         for b in flat[i + 1:]:
